@@ -247,7 +247,9 @@ func C12(c *wk.Ctx) {
 				n := len(ref.Sizes)
 				u.Counters["fault_free_write_calls"] += int64(n)
 				kinds := classify(ref.Accepted, ref.Sizes, texts)
-				if n >= 2 {
+				if n >= 2 || len(ref.Accepted) >= 2 {
+					// at least two fault points: write calls or byte capacities (a renderer that buffers its
+					// output makes a single write call; the capacity enumeration still reaches every offset)
 					u.Hash("case", wk.FNV(gc.Skeleton()+"\x00"+e.Template+fmt.Sprint(e.Data, cs.Catalogue)))
 				}
 				u.MaxCounter("max_write_calls_in_a_case", int64(n))
